@@ -167,6 +167,23 @@ func init() {
 		}
 		return fr.i.newError("json: cannot unmarshal"), true
 	}
+	ext["(*encoding/json.Encoder).Encode"] = func(fr *frame, a []value) (value, bool) {
+		// A-JSON for streams: the document is one opaque token written with a single Write
+		enc := a[0].(*value)
+		et := fr.i.namedType("encoding/json", "Encoder")
+		w := (*enc).(structure)[fieldIndex(et, "w")].(iface)
+		if w.t == nil {
+			panic(nilDeref())
+		}
+		v := a[1].(iface)
+		doc := []value{blob{"json:" + typeString(v.t), deepCopy(v.v, map[*value]*value{})}}
+		m := fr.i.prog.LookupMethod(w.t, nil, "Write")
+		if m == nil {
+			abort("json.Encoder: writer %v has no Write", w.t)
+		}
+		r := call(fr.i, fr, 0, m, []value{w.v, doc}).(tuple)
+		return r[1], true
+	}
 	ext["net/http.ReadResponse"] = func(fr *frame, a []value) (value, bool) {
 		// only used on the constant 504 message of make504Response
 		rd := a[0].(*value)
